@@ -757,6 +757,10 @@ func (env *SpecEnv) conv(e *SExpr, t types.Type, args []*SExpr) Val {
 	if ti && fi {
 		return Val{T: t, S: vc.convInt(a.S, fw, fs, tw)}
 	}
+	if vc.sortOf(t) == sIface && env.sortOf(a) != sIface {
+		// concrete value converted to an interface type
+		return Val{T: t, S: app("mk_iface", fmt.Sprint(vc.P.typeTag(a.T)), vc.box(a.T, a.S))}
+	}
 	if env.sortOf(a) == vc.sortOf(t) {
 		return Val{T: t, S: a.S}
 	}
